@@ -93,6 +93,18 @@ type Chain struct {
 	DB      dbm.DB
 	ValPriv []*ed25519.PrivKey
 	Genesis []byte
+	// Blocks is the log of everything this node was fed and what it answered (C10, C20: replay on other instances).
+	Blocks []*BlockRec
+}
+
+// BlockRec is one block as consensus would deliver it, with the node's answers.
+type BlockRec struct {
+	Height  int64
+	Time    time.Time
+	Txs     [][]byte
+	Results []TxResult
+	AppHash []byte
+	Updates string
 }
 
 func (c *Chain) Header() tmproto.Header {
@@ -264,6 +276,7 @@ func (c *Chain) Begin(dt time.Duration) *PanicInfo {
 	}
 	c.Height++
 	c.Time = c.Time.Add(dt)
+	c.Blocks = append(c.Blocks, &BlockRec{Height: c.Height, Time: c.Time})
 	pi := catch(func() {
 		c.App.BeginBlock(abci.RequestBeginBlock{Header: c.Header()})
 	})
@@ -295,6 +308,10 @@ func (c *Chain) End() (abci.ResponseEndBlock, *PanicInfo) {
 	}
 	cr := c.App.Commit()
 	c.InBlock = false
+	if n := len(c.Blocks); n > 0 {
+		c.Blocks[n-1].AppHash = cr.Data
+		c.Blocks[n-1].Updates = RenderUpdates(res.ValidatorUpdates)
+	}
 	if c.Out != nil {
 		c.Out.Block(c, "end", &res, nil, cr.Data)
 	}
@@ -337,8 +354,16 @@ func (c *Chain) Deliver(signer int, gas uint64, fee int64, msgs ...sdk.Msg) TxRe
 		return TxResult{Code: 99998, Codespace: "harness", Log: err.Error()}
 	}
 	r := c.App.DeliverTx(abci.RequestDeliverTx{Tx: txb})
-	return TxResult{Code: r.Code, Codespace: r.Codespace, Log: r.Log, GasWanted: r.GasWanted, GasUsed: r.GasUsed, Data: r.Data, Events: r.Events}
+	tr := TxResult{Code: r.Code, Codespace: r.Codespace, Log: r.Log, GasWanted: r.GasWanted, GasUsed: r.GasUsed, Data: r.Data, Events: r.Events}
+	if n := len(c.Blocks); n > 0 {
+		c.Blocks[n-1].Txs = append(c.Blocks[n-1].Txs, txb)
+		c.Blocks[n-1].Results = append(c.Blocks[n-1].Results, tr)
+	}
+	return tr
 }
+
+// quietGap is the block-time gap of the quiet blocks appended by the export profile: long enough for every period to pass.
+func (c *Chain) quietGap() time.Duration { return 400 * time.Second }
 
 // Hex is the canonical address form in traces.
 func Hex(a []byte) string { return hex.EncodeToString(a) }
